@@ -67,8 +67,8 @@ theorem simB_step {fuel : Nat} (ih : SimE fo host P bodies fuel) (ihB : SimB fo 
     with ⟨w, st1, hx⟩ | ⟨w, st1, hx⟩ | ⟨e, hx⟩ | hx <;> simp only [hx] at h
   · simp only [Out.ok.injEq, Prod.mk.injEq] at h
     obtain ⟨rfl, rfl⟩ := h
-    exact ⟨rs, (ih body cur st _ _ hx cur t rs vs fr t hloc hwf (.inl rfl) hjt (by omega) hlt).toReach, fun _ => rfl⟩
-  · obtain ⟨extra, hr, he⟩ := ih body cur st _ _ hx cur t rs vs fr t hloc hwf (.inl rfl) hjt (by omega) hlt
+    exact ⟨rs, (ih body cur st _ _ hx cur t rs vs fr t hloc hwf hjt (by omega) hlt).toReach, fun _ => rfl⟩
+  · obtain ⟨extra, hr, he⟩ := ih body cur st _ _ hx cur t rs vs fr t hloc hwf hjt (by omega) hlt
     obtain ⟨rs', hr2, he2⟩ := ihB cur body { st1 with inp := w } v st' h t (extra ++ rs) vs fr hloc hwf hjt hlt
     refine ⟨rs', hr.trans hr2, fun ht => ?_⟩
     rw [he2 ht, he ht]
@@ -126,10 +126,10 @@ theorem run_located (fo : FloatOps F) (host : Host F) {P : Prog F} {bodies : Lis
     {fuel cur : Nat} {e : Expr F} {st st' : St F} {res : Res F}
     (h : evalFS fo host bodies cur fuel e st = .ok (res, st'))
     {root pc entry : Nat} (rs vs : List (Val F)) (fr : List (Frame F))
-    (hloc : Located P root cur pc e) (hwf : wfC e = true) (hen : root = cur ∨ enFree e = true)
+    (hloc : Located P root cur pc e) (hwf : wfC e = true)
     (hj : P.jumps[cur]? = some entry) (hent : entry < P.instrs.size) (hlt : pc + len e < P.instrs.size) :
     ResOK fo host P entry pc (pc + len e) (tailR e) rs vs fr st res st' :=
-  (sim_all fo host env fuel).1 e cur st res st' h root pc rs vs fr entry hloc hwf hen hj hent hlt
+  (sim_all fo host env fuel).1 e cur st res st' h root pc rs vs fr entry hloc hwf hj hent hlt
 
 /-- whole program: if the evaluator gives `v`, the machine started at the entry of body `0` with the input as
 the only input value halts with `v` as the current value, nothing else on any stack, and the same trace -/
